@@ -689,10 +689,23 @@ def _is_expression_pattern(pattern: str) -> bool:
     # - Variable comparisons like amount > 500, month == 12, source == "Amex"
     function_pattern = r'^(contains|normalized|anyof|startswith|fuzzy|regex|extract|split|substring|trim|exists)\s*\('
     variable_pattern = r'^(amount|month|year|day|source|description)\s*[<>=!]'
-    return bool(re.match(function_pattern, pattern)) or \
-           bool(re.match(variable_pattern, pattern)) or \
-           pattern.startswith('field.') or \
-           ' and ' in pattern or ' or ' in pattern or pattern.startswith('(')
+    looks_like_expression = bool(re.match(function_pattern, pattern)) or \
+        bool(re.match(variable_pattern, pattern)) or \
+        pattern.startswith('field.') or \
+        ' and ' in pattern or ' or ' in pattern or pattern.startswith('(')
+    if not looks_like_expression:
+        return False
+    # The hints above also fit ordinary regular expressions of a legacy CSV file -
+    # (UBER|LYFT), (?i)netflix, "bed bath and beyond". Such a pattern is an expression only
+    # if it parses as one and has something to evaluate (a call, a comparison, a field);
+    # otherwise it is the regex it was written as, not a rule to be skipped.
+    import ast
+    from tally import expr_parser
+    try:
+        tree = expr_parser.parse_expression(pattern)
+    except expr_parser.ExpressionError:
+        return False
+    return any(isinstance(node, (ast.Call, ast.Compare, ast.Attribute)) for node in ast.walk(tree))
 
 
 def _resolve_dynamic_tags(
